@@ -96,6 +96,8 @@ func main() {
 			batch{Idx: 9005, Kind: "canon-dma-samepid", NGPU: 1},
 			batch{Idx: 9006, Kind: "canon-dma-stale", NGPU: 1},
 			batch{Idx: 9007, Kind: "canon-dma-stale", NGPU: 2},
+			batch{Idx: 9008, Kind: "canon-dma-reorder", NGPU: 1},
+			batch{Idx: 9009, Kind: "canon-dma-reorder", NGPU: 2},
 		)
 	}
 	// slow (timing) batches first so that the tail of the run is short
